@@ -25,6 +25,7 @@ RULE = (
     "zero-column relations with a join-identity operand are generated on purpose; in SQL programs every node that "
     "holds a cached payload after processing is executed, a selection and a calculation built on it are executed, "
     "and it is executed again - bounds and rows must not have changed. "
+    "  In the iteration engine up to three operation nodes per case are replayed with reapply() on a different operand (their target extended by a calculated column): the result's declared columns and bounds must describe what it yields and its rows must be the model's. "
 )
 ASSUMPTIONS = [
     "leaf declarations are truthful by construction of the generator (min <= actual <= max)",
